@@ -72,10 +72,18 @@ class Vec(object):
         return Vec(*[-x for x in self.xs])
 
     def __eq__(self, o):
+        # comparisons are observable (audit trail, bounded) and not reflexive for a vector starting with -1: a proxy
+        # must forward even `p == p` to the target
+        self.log = (self.log + ["eq"])[-2:]
+        if self.xs and self.xs[0] == -1:
+            return False
         return hasattr(o, "xs") and list(o.xs) == self.xs
 
     def __ne__(self, o):
-        return not self.__eq__(o)
+        self.log = (self.log + ["ne"])[-2:]
+        if self.xs and self.xs[0] == -1:
+            return False
+        return not (hasattr(o, "xs") and list(o.xs) == self.xs)
 
     def __lt__(self, o):
         return len(self.xs) < (len(o.xs) if hasattr(o, "xs") else o)
@@ -103,7 +111,7 @@ class Vec(object):
         return len(self.xs)
 
     def __exit__(self, t, v, tb):
-        self.log.append("exit")
+        self.log = (self.log + ["exit"])[-2:]
         return False
 
     def __call__(self, a, b=0):
@@ -249,6 +257,7 @@ def ops_for(kind):
     add("iadd:other", lambda o, x: operator.iadd(o, x))
     add("in:other", lambda o, x: x in o)
     add("eq:self", lambda o, x: o == o)
+    add("ne:self", lambda o, x: o != o)
     # methods per kind
     meth = {
         "list": [("append", (2,)), ("pop", ()), ("pop", (5,)), ("clear", ()), ("extend", ((1, 2),)), ("index", (1,)), ("index", (7,)),
